@@ -58,7 +58,10 @@ package classdef
 //@ func Read(p *parser.Parser, pos int64) (table Table, err error)   props: C08 C02 C18
 //@   requires parser.inv(p) && pos >= 0
 //@   ensures err == nil ==> table != nil && forall g uint16 :: has(table, g) ==> table[g] != 0
+//@   ensures err == nil ==> parser.inv(p)
+//@   ensures p.r == old(p.r)
 //@   ensures faults(p.r) > old(faults(p.r)) ==> err != nil
+//@   modifies p.*, allelems(byte), rpos(p.r), faults(p.r)
 //@   loop 0
 //@     invariant parser.inv(p) && 0 <= i && i <= glyphCount && glyphCount <= 65535 && startGlyphID + glyphCount <= 65536 && res != nil && fresh(res) && faults(p.r) == old(faults(p.r))
 //@     invariant forall g uint16 :: has(res, g) ==> res[g] != 0
